@@ -2,6 +2,7 @@ package mgrsim
 
 import (
 	"fmt"
+	"github.com/spq/pkappa2/internal/query"
 	"sort"
 	"strings"
 
@@ -116,6 +117,32 @@ func (o *oracles) checkAtomic(op Op, r OpResult) {
 		exp[op.Name] = p
 		t := o.tagByName(op.Name)
 		if t != nil {
+			// the rewritten definition must be a query, and the query must denote
+			// the tag's matches (it is what the next start evaluates)
+			if q, err := query.Parse(t.Definition); err != nil {
+				if o.violate("atomic", op.K+"/definition-unparsable", fmt.Sprintf("%s(%s,%v) returned success and left the definition %q, which is not a query: %v", op.K, op.Name, op.IDs, t.Definition, err)) {
+					return
+				}
+			} else if ids, ok := q.Conditions.StreamIDs(o.state.NextStreamID); !ok {
+				if o.violate("atomic", op.K+"/definition-not-ids", fmt.Sprintf("%s(%s,%v) returned success and left the definition %q, which is not an id filter", op.K, op.Name, op.IDs, t.Definition)) {
+					return
+				}
+			} else {
+				D := map[uint]bool{}
+				for i := uint(0); ids.Next(&i); i++ {
+					D[i] = true
+				}
+				M := setOf(t.Matches)
+				U := setOf(t.Uncertain) // pending streams are decided by the next tagging job
+				for i := uint(0); i < uint(o.state.NextStreamID); i++ {
+					if D[i] != M[i] && !U[i] {
+						if o.violate("atomic", op.K+"/definition-differs-from-matches", fmt.Sprintf("%s(%s,%v) returned success; the definition is now %q but the tag matches %v (stream %d: definition %v, matches %v)", op.K, op.Name, op.IDs, t.Definition, t.Matches, i, D[i], M[i])) {
+							return
+						}
+						break
+					}
+				}
+			}
 			M := setOf(t.Matches)
 			for _, id := range op.IDs {
 				if (op.K == "MarkAdd") != M[uint(id)] {
